@@ -74,4 +74,17 @@ example : ∃ s, replay (fun x => if x = 1 then .die else .ok) (init 1 false [1,
     [.prodSend, .recv 0, .finish 0, .prodSend, .main] = some s ∧ s.mainPc = .done 1 := by
   refine ⟨_, rfl, ?_⟩; decide
 
+/-- … and at the level of the report (composition with the aggregation model, C01): each file
+record of the result map is observably the record that a single sequential pass over the
+*accepted* inputs produces – "the coverage reported for all other inputs is exactly what it would
+be without" the rejected ones – for every thread count, fault environment and interleaving. -/
+theorem C07_report_without_rejected (canon : Grcov.Key → Grcov.Key)
+    (contents : Item → List (Grcov.Key × Grcov.Cov))
+    (hwf : ∀ i, ∀ kc ∈ contents i, kc.2.WF) (fate : Item → Fate) (n : Nat) (hn : 1 ≤ n) (rx : Bool)
+    (items : List Item) (tr : List Step) (s : State) (h : Run fate (init n rx items) tr s)
+    (hd : s.mainPc = .done 0) (k : Grcov.Key) :
+    Grcov.Report.ObsEqOpt (Grcov.AList.get? (Grcov.Report.reportOf canon contents s.merged) k)
+      (Grcov.AList.get? (Grcov.Report.reportOf canon contents (items.filter fun x => fate x = .ok)) k) :=
+  Grcov.Props.C02.C02_report_without_rejected canon contents hwf fate n hn rx items tr s h hd k
+
 end Grcov.Props.C07
